@@ -7,9 +7,11 @@ import (
 	"io/ioutil"
 	"os"
 	"strings"
+	"time"
 
 	"github.com/q191201771/lal/pkg/base"
 	"github.com/q191201771/lal/pkg/httpflv"
+	"github.com/q191201771/lal/pkg/logic"
 )
 
 type tagSpec struct {
@@ -56,9 +58,11 @@ func c11Digest(b []byte) string {
 
 // c11.rec <mode> <tags>: a recording through FlvFileWriter as lal's callers make it, read back with FlvFileReader.
 // mode tag  = WriteFlvHeader + WriteTag            (pullrtmp demo, innertest)
-//      raw  = WriteFlvHeader + WriteRaw per tag    (logic.Group recording path)
-//      rawh = WriteRaw(FlvHeader) + WriteRaw       (pullrtsp / modflvfile demos)
-//      mix  = WriteFlvHeader, WriteTag and WriteRaw alternating
+//
+//	raw  = WriteFlvHeader + WriteRaw per tag    (logic.Group recording path)
+//	rawh = WriteRaw(FlvHeader) + WriteRaw       (pullrtsp / modflvfile demos)
+//	mix  = WriteFlvHeader, WriteTag and WriteRaw alternating
+//
 // Output in digest form (tags of 256 KiB, 1 MiB ...): file digest, number of tags read back, (type:size:ts:digest of raw).
 func c11Rec(a []string) string {
 	mode := a[0]
@@ -195,6 +199,18 @@ func init() {
 		f.Close()
 		defer os.Remove(name)
 		var w httpflv.FlvFileWriter
+		// the writer value has been used for an earlier recording (a writer kept across inputs): the second
+		// recording must be complete on its own
+		if f0, err := ioutil.TempFile("", "lalprobe-flv0-"); err == nil {
+			n0 := f0.Name()
+			f0.Close()
+			if w.Open(n0) == nil {
+				_ = w.WriteFlvHeader()
+				_ = w.WriteTag(httpflv.Tag{Raw: httpflv.PackHttpflvTag(8, 0, []byte{0xaf, 0x01, 0x00})})
+				_ = w.Dispose()
+			}
+			os.Remove(n0)
+		}
 		if err := w.Open(name); err != nil {
 			panic(err)
 		}
@@ -231,6 +247,83 @@ func init() {
 			Opcode: uint8(numTok(a[4])), PayloadLength: numTok(a[5]), Masked: boolTok(a[6]), MaskKey: uint32(numTok(a[7])),
 		}
 		return tokBytes(base.MakeWsFrameHeader(h))
+	})
+	// c11.joinrace <ws> <joiners>: HTTP-FLV subscribers join a real Group while a publisher goroutine keeps
+	// broadcasting: whatever the interleaving, each subscriber's byte stream starts with the HTTP response
+	// (101 upgrade for WebSocket) and, as the first body unit, the FLV header - no tag may overtake them
+	register("c11.joinrace", func(a []string) string {
+		ws := boolTok(a[0])
+		n := int(numTok(a[1]))
+		var cfg logic.Config
+		cfg.RtmpConfig.Enable = true
+		cfg.HttpflvConfig.Enable = true
+		group := logic.NewGroup("live", "s", &cfg, logic.GroupOption{}, nopGroupObserver{})
+		stop := make(chan struct{})
+		done := make(chan struct{})
+		go func() {
+			defer close(done)
+			ts := uint32(0)
+			for {
+				select {
+				case <-stop:
+					return
+				default:
+				}
+				var m base.RtmpMsg
+				m.Header.MsgTypeId = base.RtmpTypeIdAudio
+				m.Header.Csid = 4
+				m.Header.MsgStreamId = 1
+				m.Header.TimestampAbs = ts
+				m.Payload = []byte{0x72, byte(ts), byte(ts >> 8), 0x55} // G.711: no codec state, never withheld
+				m.Header.MsgLen = uint32(len(m.Payload))
+				group.OnReadRtmpAvMsg(m)
+				ts++
+			}
+		}()
+		var conns []*fakeConn
+		for i := 0; i < n; i++ {
+			conn := newFakeConn(nil)
+			s := httpflv.NewSubSession(conn, base.UrlContext{}, ws, "key")
+			conns = append(conns, conn)
+			group.AddHttpflvSubSession(s)
+			time.Sleep(200 * time.Microsecond)
+		}
+		time.Sleep(5 * time.Millisecond)
+		close(stop)
+		<-done
+		bad := 0
+		first := ""
+		for _, c := range conns {
+			// writes are queued in order: wait until the header writes have reached the connection
+			deadline := time.Now().Add(5 * time.Second)
+			for len(c.all()) < 64 && time.Now().Before(deadline) {
+				time.Sleep(time.Millisecond)
+			}
+			b := c.all()
+			ok := false
+			if i := bytes.Index(b, []byte("\r\n\r\n")); i > 0 && bytes.HasPrefix(b, []byte("HTTP/1.1 ")) {
+				body := b[i+4:]
+				if ws && len(body) >= 2 {
+					body = body[2:] // one small binary frame header in front of the FLV header
+				}
+				ok = bytes.HasPrefix(body, httpflv.FlvHeader)
+			}
+			if !ok {
+				bad++
+				if first == "" {
+					k := len(b)
+					if k > 48 {
+						k = 48
+					}
+					first = tokBytes(b[:k])
+				}
+			}
+		}
+		group.Dispose()
+		if bad > 0 {
+			return fmt.Sprintf("bad %d %s", bad, first)
+		}
+		return "ok"
 	})
 	register("c11.sub", func(a []string) string {
 		ws := boolTok(a[0])
